@@ -198,6 +198,38 @@ Proof.
 Qed.
 Print Assumptions paths_refuted_send_failure.
 
+(* HEADLINE (partial, in the PUBLISHED graph's own terms): for each of the five protocols, with the tables of the
+   current /repo, every step of every guarded history -- any length, threads, wire identifiers, options, decisions,
+   faults -- announces states that form a path of the PUBLISHED graph (Spec.v) from the thread's persisted state,
+   persists a state of that path, and announces nothing once the persisted state is terminal *)
+Theorem paths_in_published_graph :
+  (forall ops, disciplined ic_proto s0 ops = true ->
+     all_steps_ok_rel (spec_edge ic_names ic_spec) ic_proto s0 ops = true) /\
+  (forall ops, disciplined pp_proto s0 ops = true ->
+     all_steps_ok_rel (spec_edge pp_names pp_spec) pp_proto s0 ops = true) /\
+  (forall ops, disciplined intro_proto s0 ops = true ->
+     all_steps_ok_rel (spec_edge intro_names intro_spec) intro_proto s0 ops = true) /\
+  (forall ops, disciplined didex_proto s0 ops = true ->
+     all_steps_ok_rel (spec_edge didex_names didex_spec) didex_proto s0 ops = true) /\
+  (forall ops, disciplined legacy_proto s0 ops = true ->
+     all_steps_ok_rel (spec_edge legacy_names legacy_spec) legacy_proto s0 ops = true).
+Proof.
+  destruct paths_partial_instances as [H1 [H2 [H3 [H4 H5]]]].
+  repeat split; intros ops Hd; (apply all_steps_ok_mono; [intros a b; apply (sedge_in_published_graph a b)|]);
+    [apply H1|apply H2|apply H3|apply H4|apply H5]; exact Hd.
+Qed.
+Print Assumptions paths_in_published_graph.
+
+(* restart: the decision of an action event taken through the API by protocol instance id (from the stored
+   transitional payload) after the service was restarted; the callback handed out before the restart is gone *)
+Example restart_nonvacuous :
+  let ops := [Wire false 2 false false (Some 9) (Some 1) None 900 nofault []; Restart; Continue 0 4 nofault [];
+              ContinueP 1 4 nofault []; ContinueP 1 4 nofault []] in
+  disciplined ic_proto s0 ops = true /\ all_steps_ok ic_proto s0 ops = true /\
+  map fst (snd (run ic_proto s0 ops)) = [RAction; ROk; RNoEvent; ROk; RNoEvent] /\
+  cur ic_proto (final ic_proto s0 ops) 1 = 7.
+Proof. vm_compute. repeat split. Qed.
+
 (* ---------- non-vacuity ---------- *)
 
 (* a disciplined issuer history with a negotiation loop, a failing Continue (abandoning -> done), a second thread,
